@@ -400,7 +400,8 @@ def candOf (x : CycIn) (u : Nat) : CandIn :=
 
 def matchedBy (x : CycIn) (r : RInfo) : Bool :=
   let k := candOf x r.uid
-  checkMatched { ignored := false, hasName := x.hasName, nameMatch := k.nameMatch, exact := true, unschedulable := false,
+  -- ReservationInfo.IsUnschedulable = Spec.Unschedulable (not generated) || IsTerminating (DeletionTimestamp set)
+  checkMatched { ignored := false, hasName := x.hasName, nameMatch := k.nameMatch, exact := true, unschedulable := r.term,
                  tolerateUnsch := false, taintBad := false, affinity := k.affOK }
     (matchOwners r.parseErr [{ obj := true, ctrl := true, lbl := k.ownerOK }])
 
